@@ -173,7 +173,7 @@ Print Assumptions C16_bash_cur_is_subcommand_refuted.
 (** Byte-exact models of clap_complete/src/aot/shells/{elvish,powershell}.rs (Complete/ElvishModel.v,
     Complete/PowershellModel.v; the texts of the tree are kept in a [TextTree.ttree]; the common table
     specification is [PathTable.gi]).  Names are qualified: the two model files reuse the Rust names. *)
-From ClapModel Require Complete.TextTree Complete.PathTable Complete.PathTableLex Complete.PathTableBlocks
+From ClapModel Require Complete.TextTree Complete.PathTable Complete.PathTableLex Complete.PathTableBlocks Complete.BuildTexts
   Complete.ElvishModel Complete.ElvishProofs Complete.PowershellModel Complete.PowershellProofs.
 
 (** the hypotheses of the coverage theorems below are satisfiable by a built two-level tree *)
@@ -309,15 +309,20 @@ Theorem C16_powershell_empty_bin_refuted :
     forall es, ~ PathTable.infix (PowershellModel.case_block (PathTable.path_key [] [c_name sc]) es) script.
 Proof. exact PowershellProofs.powershell_empty_bin_refuted. Qed.
 Print Assumptions C16_powershell_empty_bin_refuted.
+(** [Command::build] never runs out of fuel: [None] (the model's out-of-fuel result) is unreachable *)
+Theorem C16_build_total : forall c, build c <> None.
+Proof. exact BuildTexts.build_total. Qed.
+Print Assumptions C16_build_total.
+
 (** [clap_complete::aot::generate] as a whole ([set_bin_name], [Command::build] on the command and on its
-    texts, the generator): a script is written whenever [build] succeeds *)
-Theorem C16_elvish_generate_total : forall c bin b t,
-  build (set_bin_name c bin) = Some b -> exists s, ElvishModel.generate_elvish c t bin = Some s.
+    texts, the generator) terminates with a script for EVERY command tree, texts and bin name: no panic
+    site of the generator is reachable after [build] *)
+Theorem C16_elvish_generate_total : forall c bin t, exists s, ElvishModel.generate_elvish c t bin = Some s.
 Proof. exact ElvishProofs.elvish_generate_total. Qed.
 Print Assumptions C16_elvish_generate_total.
 
-Theorem C16_powershell_generate_total : forall up c bin b t,
-  build (set_bin_name c bin) = Some b -> exists s, PowershellModel.generate_powershell up c t bin = Some s.
+Theorem C16_powershell_generate_total : forall up c bin t,
+  exists s, PowershellModel.generate_powershell up c t bin = Some s.
 Proof. exact PowershellProofs.powershell_generate_total. Qed.
 Print Assumptions C16_powershell_generate_total.
 
